@@ -3,7 +3,7 @@ import json, threading, time
 from concurrent.futures import ThreadPoolExecutor
 from vcheck import *
 from wcommon import *
-import c02_amode, c02_elide
+import c02_amode, c02_elide, c02_guard
 
 
 def run(tier, seed):
@@ -12,10 +12,18 @@ def run(tier, seed):
                    "(Engine/Elide.v) — the last two compared with the real functions on every run through overlay wrappers (harness/c02/x_*_export.go)",
                    "the x86 meaning of an addressing mode (base + index*2^shift + sign-extended disp32) and of the three instructions lowerToAddressMode inserts (mov imm, xor-zero, shl imm)",
                    "the overlay's copy of LowerToSSA/lowerBody that steps the real frontend (its SSA output is compared with LowerToSSA's on every function)",
-                   "coq/Wasm/Sem.v as the oracle of every access of the end-to-end run; harness/c02, checks/c02*.py"]
+                   "coq/Wasm/Sem.v as the oracle of every access of the end-to-end run; harness/c02, checks/c02*.py",
+                   "guard stream: Engine/Access.v (byte-level model of plain/SIMD/atomic/bulk accesses, written from the specification) and its restatement in Python (checks/c02_guard.py) as "
+                   "reference; the kernel's page protection (mmap PROT_NONE / mprotect) as the detector of host accesses outside [0,size); the harness's twin construction "
+                   "(the consumer of a loaded value, called with the reference value of the addressed bytes on the same engine) instead of a semantics of the consumers; "
+                   "wazero's api.Memory Read/Write used to fill and to dump the memories"]
     ck.assumptions += ["instruction selection/encoding after address-mode lowering, register allocation and native code are exercised end to end, not modelled",
                        "Engine/Elide.v's execution semantics: the memory never shrinks and moves only at calls and memory.grow; a block's own SSA values change only when the block is entered",
-                       "arm64 is out of scope on this machine; atomics/SIMD/bulk-memory accesses are not generated",
+                       "arm64 is out of scope on this machine",
+                       "guard stream: a wild access is detected when it reaches an inaccessible page: within 64 KiB below the memory, or anywhere from its current size up to the "
+                       "reserved maximum + 64 KiB (fixed allocator) / 64 KiB above it (moving allocator, which also unmaps the old memory on every growth); accesses that land in other "
+                       "mappings of the process are only seen through results, trap class and the complete memory comparison. Memories of 1-4 pages growing up to 8; the alignment "
+                       "check of atomics is compared for page-aligned memory bases only; float SIMD arithmetic on loaded vectors is not generated (NaN payloads)",
                        "final memory contents above the first 64 MiB are observed through the programs' own loads, not dumped"]
     proofs_ok = ck.proofs()
     n, big = (140, 4) if tier == "quick" else (3000, 40)
@@ -30,7 +38,7 @@ def run(tier, seed):
             if kind in shown: return
             shown.add(kind); ck.violation(kind, sig, detail, **kw)
     # the two direct streams run beside the end-to-end harness
-    pool = ThreadPoolExecutor(2)
+    pool = ThreadPoolExecutor(3)
     t0 = time.time()
     def stream(mod, name):
         try:
@@ -41,16 +49,19 @@ def run(tier, seed):
             return 0, 0, {}, []
     fut_a = pool.submit(stream, c02_amode, "amode")
     fut_e = pool.submit(stream, c02_elide, "elide")
+    fut_g = pool.submit(stream, c02_guard, "guard")
     rc, out = sh([binp, "-seed", str(seed), "-n", str(n), "-big", str(big)], timeout=2400)
     cases = [json.loads(l) for l in out.split("\n") if l.startswith("{")]
     na, da, dist_a, samp_a = fut_a.result()
     ne, de, dist_e, samp_e = fut_e.result()
-    ck.note("streams: amode %d cases, elide %d functions, end-to-end %d programs (harness phase %.1fs)" % (na, ne, len(cases), time.time() - t0))
+    ng, dg, dist_g, samp_g = fut_g.result()
+    ck.note("streams: amode %d cases, elide %d functions, guard %d calls (%d programs, %d at the last in-bounds position, %d children died), end-to-end %d programs (harness phase %.1fs)"
+            % (na, ne, ng, dist_g.get("programs", 0), dist_g.get("main_access_at_last_in_bounds_position", 0), dist_g.get("children_died", 0), len(cases), time.time() - t0))
     if rc != 0 or not cases:
         ck.violation("process-fault", {"kind": "process-fault"}, {"rc": rc, "tail": out[-3000:]})
         return ck.finish()
-    ck.cases = len(cases) * 2 + na + ne
-    dist = {"direct_amode": dist_a, "direct_elide": dist_e, "calls": 0, "outcomes": {}, "memories_above_2GiB": 0, "model_out_of_fuel": 0}
+    ck.cases = len(cases) * 2 + na + ne + ng
+    dist = {"direct_amode": dist_a, "direct_elide": dist_e, "guard": dist_g, "calls": 0, "outcomes": {}, "memories_above_2GiB": 0, "model_out_of_fuel": 0}
     for c in cases:
         if c["pages"] > 32768: dist["memories_above_2GiB"] += 1
         for o in (c["engines"]["compiler"].get("obs") or []):
@@ -58,15 +69,23 @@ def run(tier, seed):
             k = o.get("trap") or "values"
             dist["outcomes"][k] = dist["outcomes"].get(k, 0) + 1
     ck.dist = dist
-    ck.distinct = len(set(c["wasm"] for c in cases)) + da + de
-    ck.samples = [dict(pages=c["pages"], calls=c["calls"][:4], compiler=(c["engines"]["compiler"].get("obs") or [])[:4]) for c in cases[:3]] + samp_a + samp_e
+    ck.distinct = len(set(c["wasm"] for c in cases)) + da + de + dg
+    ck.samples = [dict(pages=c["pages"], calls=c["calls"][:4], compiler=(c["engines"]["compiler"].get("obs") or [])[:4]) for c in cases[:3]] + samp_a + samp_e + samp_g
     ck.extra["rule"] = ("functions with 2-5 loads/stores of every width (bases: parameter reused, derived, constants incl. >= 2^31; static offsets over the whole 32-bit range) "
                         "placed around calls, memory.grow, if/block/loop boundaries; memories of 1-3 pages and just above 2 GiB / just under 4 GiB; both engines vs W; distinct by module bytes. "
                         "Direct stream A: SSA trees (the frontend's shapes enumerated x all interesting offsets, then random trees over the whole of Amode.v's e64 incl. constants/offsets >= 2^31, "
                         "shifts 0..65, single/multi-use) handed to the real lowerToAddressMode; its result is read under 3 register valuations and compared part by part with Amode.v (in Coq) "
                         "and with value+offset (Python). Direct stream B: generated functions (loops, ifs, br/br_if/br_table, calls, memory.grow, few base values) lowered by the real frontend "
                         "stepped opcode by opcode; the real cache at every block boundary/event and every decision of memOpSetup are compared with Elide.v (in Coq, which also evaluates wf_cfg on "
-                        "the real graph) and every access of the emitted SSA is checked by a must-dataflow over the final graph (Python)")
+                        "the real graph) and every access of the emitted SSA is checked by a must-dataflow over the final graph (Python). "
+                        "Guard stream: access programs run in child processes on memories whose first byte after the current size is always inaccessible (mmap allocator, fixed or moving on "
+                        "growth): a systematic sweep (every full-width load i32/i64/f32/f64/v128 x every consumer of its type — ALU/compare/shift/rotate on either side, vector shifts, splat, "
+                        "replace_lane, conversions, float operators, select, if/br_if/br_table, call arguments, global.set — at the last in-bounds and the first out-of-bounds position) and random "
+                        "programs (every load/store width and extension, stores of constants and of loaded values, load-op-store in place, v128 load/store/extending/splat/zero/lane, atomics "
+                        "load/store/rmw/cmpxchg/notify/wait of every width incl. every misalignment class, memory.fill/copy/init incl. overlapping copies and zero lengths; bases from parameters, "
+                        "derived values and constants, static offsets incl. >= 2^31 and effective addresses >= 2^32; an earlier access on the same base value, memory.grow or a growing call "
+                        "in between); every call: interpreter vs compiler (trap class, results, every changed byte, size), both vs the specification (Python) and vs Engine/Access.v (Coq, on "
+                        "a window of the memory); a dead child = wild access, attributed to program + call by markers and confirmed by a single re-run")
     for c in cases:
         why = engines_agree(c)
         if why:
